@@ -25,7 +25,7 @@ ASSUMPTIONS = [
     "Every record is internally consistently wrapped (all lines but the last have the record's width), as faidx requires.",
 ]
 REQUIRED_CLASSES = ["multi-line", "last-line-full", "last-line-short", "single-line", "description", "marker-character-in-description", "genome-route-3+-intervals", "supplied-index-without-final-newline", "interval-crosses-break", "interval-ends-at-break",
-                    "interval-starts-at-break", "supplied-index", "library-index", "fast-path-label-order-differs", "no-final-newline", "index-written-by-genome-with-underscore-names", "another-file-opened-at-the-same-path-first"]
+                    "interval-starts-at-break", "supplied-index", "library-index", "fast-path-label-order-differs", "no-final-newline", "index-written-by-genome-with-underscore-names", "another-file-opened-at-the-same-path-first", "crlf-line-ends"]
 BOUNDS = {"quick": "exhaustive: 1 record L<=7 W<=8 and 2 records L<=4 W<=5, every interval; 450 sampled files; one 5.6 MB file (2 read chunks of create_index) and one 16 MB file (4 read chunks)",
           "thorough": "exhaustive: N<=2 L<=7 W<=8 and N=3 L<=4 W<=4; 2500 sampled files; one 5.2 MB file"}
 BUDGET_S = {"quick": 200, "thorough": 1500}
@@ -42,14 +42,15 @@ def layout(case):
     idx = []
     pos = 0
     n = len(case["records"])
+    e = "\r\n" if case.get("crlf") else "\n"
     for i, (name, desc, seq, w) in enumerate(case["records"]):
-        hdr = ">" + name + (" " + desc if desc else "") + "\n"
+        hdr = ">" + name + (" " + desc if desc else "") + e
         lines = [seq[j:j + w] for j in range(0, len(seq), w)]
-        body = "\n".join(lines) + "\n"
+        body = e.join(lines) + e
         if i == n - 1 and not case.get("final_nl", True):
-            body = body[:-1]
+            body = body[:-len(e)]
         first_terminated = len(lines) > 1 or body.endswith("\n")
-        idx.append({"name": name, "rlen": len(seq), "offset": pos + len(hdr), "lenc": len(lines[0]), "lenb": len(lines[0]) + 1,
+        idx.append({"name": name, "rlen": len(seq), "offset": pos + len(hdr), "lenc": len(lines[0]), "lenb": len(lines[0]) + len(e),
                     "first_line_terminated": first_terminated})
         out.append(hdr + body)
         pos += len(hdr) + len(body)
@@ -65,6 +66,8 @@ def classify(case):
         cl.append("another-file-opened-at-the-same-path-first")
     if case["index"] == "library-via-genome" and any("_" in r[0] for r in case["records"]):
         cl.append("index-written-by-genome-with-underscore-names")
+    if case.get("crlf"):
+        cl.append("crlf-line-ends")
     if case.get("genome_route") and len(case.get("intervals") or []) >= 3:
         cl.append("genome-route-3+-intervals")
     for name, desc, seq, w in case["records"]:
@@ -250,7 +253,8 @@ def sampled_case(draw, Lmax, Wmax):
         b = draw(st.one_of(st.sampled_from([p for p in breaks if p > a] or [L]), st.integers(a + 1, L)))
         ivs.append([ri, a, b])
     case = {"records": recs, "intervals": ivs, "index": draw(st.sampled_from(["library", "supplied", "library-via-genome"])), "final_nl": draw(st.booleans()),
-            "genome_route": draw(st.booleans()), "fai_no_final_newline": draw(st.booleans()), "prior_at_same_path": draw(st.integers(0, 3)) == 0}
+            "genome_route": draw(st.booleans()), "fai_no_final_newline": draw(st.booleans()), "prior_at_same_path": draw(st.integers(0, 3)) == 0,
+            "crlf": draw(st.integers(0, 3)) == 0}
     if n > 1:
         case["label_order"] = draw(st.permutations(list(range(n))))
     return case
